@@ -22,5 +22,6 @@ def main():
     print('panics', r.panics[:5])
     print('unsupported', r.unsupported[:5])
     print('covers', r.covers, 'checks', r.checks)
+    for k, v in sorted(r.fork_sites.items(), key=lambda x: -x[1])[:25]: print('  fork', v, k)
 
 main()
